@@ -176,16 +176,24 @@ fn to_py(core: &Core, ind: usize) -> String {
             } else {
                 format!(" {}", comma_delimited(args, ind))
             },
-            to_py(body, ind)
+            operand(body, core, Side::Right, ind)
         ),
 
         Core::Block { statements } => newline_delimited(statements, ind),
 
         Core::PropertyCall { object, property } => {
-            format!("{}.{}", to_py(object, ind), to_py(property, ind))
+            format!(
+                "{}.{}",
+                operand(object, core, Side::Left, ind),
+                to_py(property, ind)
+            )
         }
         Core::FunctionCall { function, args } => {
-            format!("{}({})", to_py(function, ind), comma_delimited(args, ind))
+            format!(
+                "{}({})",
+                operand(function, core, Side::Left, ind),
+                comma_delimited(args, ind)
+            )
         }
 
         Core::DictComprehension {
@@ -207,7 +215,10 @@ fn to_py(core: &Core, ind: usize) -> String {
             col,
             conds,
         } => {
-            let conds: Vec<String> = conds.iter().map(|cond| to_py(cond, ind)).collect();
+            let conds: Vec<String> = conds
+                .iter()
+                .map(|cond| protect(cond, AND_OPERAND, ind))
+                .collect();
             format!(
                 "{{{}: {} for {} if {}}}",
                 to_py(from, ind),
@@ -220,7 +231,10 @@ fn to_py(core: &Core, ind: usize) -> String {
             format!("{} for {}", to_py(expr, ind), to_py(col, ind))
         }
         Core::Comprehension { expr, col, conds } => {
-            let conds: Vec<String> = conds.iter().map(|cond| to_py(cond, ind)).collect();
+            let conds: Vec<String> = conds
+                .iter()
+                .map(|cond| protect(cond, AND_OPERAND, ind))
+                .collect();
             format!(
                 "{} for {} if {}",
                 to_py(expr, ind),
@@ -258,73 +272,73 @@ fn to_py(core: &Core, ind: usize) -> String {
         Core::Ge { left, right } => {
             format!(
                 "{} > {}",
-                to_py(left.as_ref(), ind),
-                to_py(right.as_ref(), ind)
+                operand(left, core, Side::Left, ind),
+                operand(right, core, Side::Right, ind)
             )
         }
         Core::Geq { left, right } => {
             format!(
                 "{} >= {}",
-                to_py(left.as_ref(), ind),
-                to_py(right.as_ref(), ind)
+                operand(left, core, Side::Left, ind),
+                operand(right, core, Side::Right, ind)
             )
         }
         Core::Le { left, right } => {
             format!(
                 "{} < {}",
-                to_py(left.as_ref(), ind),
-                to_py(right.as_ref(), ind)
+                operand(left, core, Side::Left, ind),
+                operand(right, core, Side::Right, ind)
             )
         }
         Core::Leq { left, right } => {
             format!(
                 "{} <= {}",
-                to_py(left.as_ref(), ind),
-                to_py(right.as_ref(), ind)
+                operand(left, core, Side::Left, ind),
+                operand(right, core, Side::Right, ind)
             )
         }
 
-        Core::Not { expr } => format!("not {}", to_py(expr.as_ref(), ind)),
+        Core::Not { expr } => format!("not {}", operand(expr, core, Side::Right, ind)),
         Core::And { left, right } => {
             format!(
                 "{} and {}",
-                to_py(left.as_ref(), ind),
-                to_py(right.as_ref(), ind)
+                operand(left, core, Side::Left, ind),
+                operand(right, core, Side::Right, ind)
             )
         }
         Core::Or { left, right } => {
             format!(
                 "{} or {}",
-                to_py(left.as_ref(), ind),
-                to_py(right.as_ref(), ind)
+                operand(left, core, Side::Left, ind),
+                operand(right, core, Side::Right, ind)
             )
         }
         Core::Is { left, right } => {
             format!(
                 "{} is {}",
-                to_py(left.as_ref(), ind),
-                to_py(right.as_ref(), ind)
+                operand(left, core, Side::Left, ind),
+                operand(right, core, Side::Right, ind)
             )
         }
         Core::IsN { left, right } => {
             format!(
                 "{} is not {}",
-                to_py(left.as_ref(), ind),
-                to_py(right.as_ref(), ind)
+                operand(left, core, Side::Left, ind),
+                operand(right, core, Side::Right, ind)
             )
         }
         Core::Eq { left, right } => {
             format!(
                 "{} == {}",
-                to_py(left.as_ref(), ind),
-                to_py(right.as_ref(), ind)
+                operand(left, core, Side::Left, ind),
+                operand(right, core, Side::Right, ind)
             )
         }
         Core::Neq { left, right } => {
             format!(
                 "{} != {}",
-                to_py(left.as_ref(), ind),
-                to_py(right.as_ref(), ind)
+                operand(left, core, Side::Left, ind),
+                operand(right, core, Side::Right, ind)
             )
         }
         Core::IsA { left, right } => {
@@ -335,55 +349,55 @@ fn to_py(core: &Core, ind: usize) -> String {
             )
         }
 
-        Core::AddU { expr } => format!("+{}", to_py(expr, ind)),
+        Core::AddU { expr } => format!("+{}", operand(expr, core, Side::Right, ind)),
         Core::Add { left, right } => {
             format!(
                 "{} + {}",
-                to_py(left.as_ref(), ind),
-                to_py(right.as_ref(), ind)
+                operand(left, core, Side::Left, ind),
+                operand(right, core, Side::Right, ind)
             )
         }
-        Core::SubU { expr } => format!("-{}", to_py(expr, ind)),
+        Core::SubU { expr } => format!("-{}", operand(expr, core, Side::Right, ind)),
         Core::Sub { left, right } => {
             format!(
                 "{} - {}",
-                to_py(left.as_ref(), ind),
-                to_py(right.as_ref(), ind)
+                operand(left, core, Side::Left, ind),
+                operand(right, core, Side::Right, ind)
             )
         }
         Core::Mul { left, right } => {
             format!(
                 "{} * {}",
-                to_py(left.as_ref(), ind),
-                to_py(right.as_ref(), ind)
+                operand(left, core, Side::Left, ind),
+                operand(right, core, Side::Right, ind)
             )
         }
         Core::Div { left, right } => {
             format!(
                 "{} / {}",
-                to_py(left.as_ref(), ind),
-                to_py(right.as_ref(), ind)
+                operand(left, core, Side::Left, ind),
+                operand(right, core, Side::Right, ind)
             )
         }
         Core::FDiv { left, right } => {
             format!(
                 "{} // {}",
-                to_py(left.as_ref(), ind),
-                to_py(right.as_ref(), ind)
+                operand(left, core, Side::Left, ind),
+                operand(right, core, Side::Right, ind)
             )
         }
         Core::Pow { left, right } => {
             format!(
                 "{} ** {}",
-                to_py(left.as_ref(), ind),
-                to_py(right.as_ref(), ind)
+                operand(left, core, Side::Left, ind),
+                operand(right, core, Side::Right, ind)
             )
         }
         Core::Mod { left, right } => {
             format!(
                 "{} % {}",
-                to_py(left.as_ref(), ind),
-                to_py(right.as_ref(), ind)
+                operand(left, core, Side::Left, ind),
+                operand(right, core, Side::Right, ind)
             )
         }
         Core::Sqrt { expr } => format!("math.sqrt({})", to_py(expr.as_ref(), ind)),
@@ -391,37 +405,37 @@ fn to_py(core: &Core, ind: usize) -> String {
         Core::BAnd { left, right } => {
             format!(
                 "{} & {}",
-                to_py(left.as_ref(), ind),
-                to_py(right.as_ref(), ind)
+                operand(left, core, Side::Left, ind),
+                operand(right, core, Side::Right, ind)
             )
         }
         Core::BOr { left, right } => {
             format!(
                 "{} | {}",
-                to_py(left.as_ref(), ind),
-                to_py(right.as_ref(), ind)
+                operand(left, core, Side::Left, ind),
+                operand(right, core, Side::Right, ind)
             )
         }
         Core::BXOr { left, right } => {
             format!(
                 "{} ^ {}",
-                to_py(left.as_ref(), ind),
-                to_py(right.as_ref(), ind)
+                operand(left, core, Side::Left, ind),
+                operand(right, core, Side::Right, ind)
             )
         }
-        Core::BOneCmpl { expr } => format!("~{}", to_py(expr, ind)),
+        Core::BOneCmpl { expr } => format!("~{}", operand(expr, core, Side::Right, ind)),
         Core::BLShift { left, right } => {
             format!(
                 "{} << {}",
-                to_py(left.as_ref(), ind),
-                to_py(right.as_ref(), ind)
+                operand(left, core, Side::Left, ind),
+                operand(right, core, Side::Right, ind)
             )
         }
         Core::BRShift { left, right } => {
             format!(
                 "{} >> {}",
-                to_py(left.as_ref(), ind),
-                to_py(right.as_ref(), ind)
+                operand(left, core, Side::Left, ind),
+                operand(right, core, Side::Right, ind)
             )
         }
 
@@ -433,8 +447,16 @@ fn to_py(core: &Core, ind: usize) -> String {
             to_py(col.as_ref(), ind),
             newline_if_body(body, ind)
         ),
-        Core::In { left, right } => format! {"{} in {}", to_py(left, ind), to_py(right, ind)},
-        Core::Index { item, range } => format!("{}[{}]", to_py(item, ind), to_py(range, ind)),
+        Core::In { left, right } => format!(
+            "{} in {}",
+            operand(left, core, Side::Left, ind),
+            operand(right, core, Side::Right, ind)
+        ),
+        Core::Index { item, range } => format!(
+            "{}[{}]",
+            operand(item, core, Side::Left, ind),
+            to_py(range, ind)
+        ),
         Core::If { cond, then } => {
             format!(
                 "if {}:{}",
@@ -451,9 +473,9 @@ fn to_py(core: &Core, ind: usize) -> String {
         ),
         Core::Ternary { cond, then, el } => format!(
             "{} if {} else {}",
-            to_py(then.as_ref(), ind),
-            to_py(cond.as_ref(), ind + 1),
-            to_py(el.as_ref(), ind + 1)
+            operand(then, core, Side::Left, ind),
+            operand(cond, core, Side::Middle, ind + 1),
+            operand(el, core, Side::Right, ind + 1)
         ),
         Core::While { cond, body } => {
             format!(
@@ -528,6 +550,122 @@ fn to_py(core: &Core, ind: usize) -> String {
         }
 
         Core::Raise { error } => format!("raise {}", to_py(error, ind)),
+    }
+}
+
+/// Where an operand sits in the text of its parent expression.
+#[derive(Clone, Copy, PartialEq, Eq)]
+enum Side {
+    Left,
+    Middle,
+    Right,
+}
+
+/// Binding strength which the operands of a Python `and` need in order to be printed bare.
+const AND_OPERAND: u8 = 5;
+
+/// Binding strength of the Python expression a [Core] node is printed as.
+///
+/// Follows the operator precedence table of the Python language reference, from lambda
+/// (loosest) to atoms (tightest). Forms which are only legal directly within the brackets
+/// printed by their parent bind loosest of all.
+fn precedence(core: &Core) -> u8 {
+    match core {
+        Core::TupleLiteral { .. }
+        | Core::Comprehension { .. }
+        | Core::KeyValue { .. }
+        | Core::ExpressionType { .. } => 0,
+        Core::AnonFun { .. } => 1,
+        Core::Ternary { .. } => 2,
+        Core::Or { .. } => 3,
+        Core::And { .. } => 4,
+        Core::Not { .. } => 5,
+        Core::Ge { .. }
+        | Core::Geq { .. }
+        | Core::Le { .. }
+        | Core::Leq { .. }
+        | Core::Eq { .. }
+        | Core::Neq { .. }
+        | Core::Is { .. }
+        | Core::IsN { .. }
+        | Core::In { .. } => 6,
+        Core::BOr { .. } => 7,
+        Core::BXOr { .. } => 8,
+        Core::BAnd { .. } => 9,
+        Core::BLShift { .. } | Core::BRShift { .. } => 10,
+        Core::Add { .. } | Core::Sub { .. } => 11,
+        Core::Mul { .. } | Core::Div { .. } | Core::FDiv { .. } | Core::Mod { .. } => 12,
+        Core::AddU { .. } | Core::SubU { .. } | Core::BOneCmpl { .. } => 13,
+        Core::Pow { .. } => 14,
+        // a number cannot be followed directly by `.`, `(` or `[`
+        Core::Int { .. } => 15,
+        Core::PropertyCall { .. } | Core::FunctionCall { .. } | Core::Index { .. } => 16,
+        _ => 17,
+    }
+}
+
+/// Binding strength which an operand of `parent` needs at least, on the given side, in order
+/// to be printed without parentheses.
+///
+/// Binary operators associate to the left, so their right operand must bind strictly tighter.
+/// Comparisons chain in Python, so a comparison is never a bare operand of another.
+/// `**` associates to the right and binds tighter than a unary operator on its left only.
+fn required(parent: &Core, side: Side) -> u8 {
+    match (parent, side) {
+        (Core::AnonFun { .. }, _) => 1,
+        (Core::Ternary { .. }, Side::Right) => 2,
+        (Core::Ternary { .. }, _) => 3,
+        (Core::Or { .. }, Side::Left) => 3,
+        (Core::Or { .. }, _) => 4,
+        (Core::And { .. }, Side::Left) => 4,
+        (Core::And { .. }, _) => 5,
+        (Core::Not { .. }, _) => 5,
+        (
+            Core::Ge { .. }
+            | Core::Geq { .. }
+            | Core::Le { .. }
+            | Core::Leq { .. }
+            | Core::Eq { .. }
+            | Core::Neq { .. }
+            | Core::Is { .. }
+            | Core::IsN { .. }
+            | Core::In { .. },
+            _,
+        ) => 7,
+        (Core::BOr { .. }, Side::Left) => 7,
+        (Core::BOr { .. }, _) => 8,
+        (Core::BXOr { .. }, Side::Left) => 8,
+        (Core::BXOr { .. }, _) => 9,
+        (Core::BAnd { .. }, Side::Left) => 9,
+        (Core::BAnd { .. }, _) => 10,
+        (Core::BLShift { .. } | Core::BRShift { .. }, Side::Left) => 10,
+        (Core::BLShift { .. } | Core::BRShift { .. }, _) => 11,
+        (Core::Add { .. } | Core::Sub { .. }, Side::Left) => 11,
+        (Core::Add { .. } | Core::Sub { .. }, _) => 12,
+        (
+            Core::Mul { .. } | Core::Div { .. } | Core::FDiv { .. } | Core::Mod { .. },
+            Side::Left,
+        ) => 12,
+        (Core::Mul { .. } | Core::Div { .. } | Core::FDiv { .. } | Core::Mod { .. }, _) => 13,
+        (Core::AddU { .. } | Core::SubU { .. } | Core::BOneCmpl { .. }, _) => 13,
+        (Core::Pow { .. }, Side::Left) => 15,
+        (Core::Pow { .. }, _) => 13,
+        (Core::PropertyCall { .. } | Core::FunctionCall { .. } | Core::Index { .. }, _) => 16,
+        _ => 0,
+    }
+}
+
+/// Print an operand of `parent`, within parentheses if it would otherwise bind differently.
+fn operand(child: &Core, parent: &Core, side: Side, ind: usize) -> String {
+    protect(child, required(parent, side), ind)
+}
+
+/// Print `core`, within parentheses if it binds less tightly than `required`.
+fn protect(core: &Core, required: u8, ind: usize) -> String {
+    if precedence(core) < required {
+        format!("({})", to_py(core, ind))
+    } else {
+        to_py(core, ind)
     }
 }
 
